@@ -209,6 +209,15 @@ func BuildUnit(P *Program, key string, profile string, prop string) (*Unit, erro
 				e.oblig("post", name, c.Props, r.reach, tv.T, fmt.Sprintf("%s:%d", shortFile(c.File), c.Line), c.Text)
 			}
 		}
+		// covers: is each return site reachable under the preconditions and the
+		// assumed contracts? (an unreachable one holds its postconditions vacuously;
+		// reported in the evidence, never a failure: defensive code may be dead)
+		if len(x.rets) > 1 {
+			for ri, r := range x.rets {
+				o := e.oblig("cover", fmt.Sprintf("cover:return@r%d", ri+1), nil, r.reach, "true", r.pos, "return site reachable")
+				o.Expect = "sat"
+			}
+		}
 		// frame
 		if mc := fc.Mod(profile); mc != nil {
 			if unk, why := e.hasUnknownFrame(exit, map[*baseNode]bool{}); unk {
